@@ -754,6 +754,10 @@ pub struct MsgCase {
     pub fault: Option<MsgFault>,
     /// sort keys defining the arrival order (ties keep chunk-id order)
     pub order: Vec<u16>,
+    /// merge this many extra trailing pieces into the final chunk, so that the
+    /// final chunk is LARGER than the others (the rules only constrain non-final chunks)
+    #[serde(default)]
+    pub tail_merge: u8,
 }
 
 impl MsgCase {
@@ -766,14 +770,29 @@ impl MsgCase {
     }
     /// Chunk models in chunk-id order, fault-free.
     pub fn clean_chunks(&self) -> Vec<ChunkModel> {
-        oracles::chunk::cut_into_chunks(
+        let mut c = oracles::chunk::cut_into_chunks(
             &self.payload(),
             self.chunk_size.max(1) as usize,
             PADWING_BOARDS[self.board as usize % 71].2,
             self.chip % 4,
             self.packet_seq,
             self.channel_seq,
-        )
+        );
+        // fold trailing pieces into the final chunk (payload must stay <= 65535 bytes)
+        for _ in 0..self.tail_merge {
+            if c.len() < 2 {
+                break;
+            }
+            let last = c.pop().unwrap();
+            let prev = c.last_mut().unwrap();
+            if prev.payload.len() + last.payload.len() > 65_535 {
+                c.push(last);
+                break;
+            }
+            prev.payload.extend_from_slice(&last.payload);
+            prev.flags = 1;
+        }
+        c
     }
     /// Apply the fault (if applicable); returns the chunk list and whether a
     /// fault was really injected.
@@ -838,9 +857,9 @@ pub fn msg_case() -> impl Strategy<Value = MsgCase> {
         (0u8..71, 0u8..4, any::<u32>(), any::<u16>()),
         prop::option::weighted(0.5, msg_fault()),
         vec(any::<u16>(), 0..=40),
-        any::<bool>(),
+        (any::<bool>(), prop_oneof![3 => Just(0u8), 1 => 1u8..4]),
     )
-        .prop_map(|(pwb, size_frac, want_chunks, (board, chip, packet_seq, channel_seq), fault, order, exact)| {
+        .prop_map(|(pwb, size_frac, want_chunks, (board, chip, packet_seq, channel_seq), fault, order, (exact, tail_merge))| {
             let len = pwb.bytes().len().max(1);
             // Aim at `want_chunks` chunks; `exact` prefers a size dividing the
             // payload exactly, otherwise a ragged tail (possibly 1 byte).
@@ -850,6 +869,6 @@ pub fn msg_case() -> impl Strategy<Value = MsgCase> {
             if !exact && size > 1 && len % size == 0 {
                 size -= 1;
             }
-            MsgCase { pwb, chunk_size: size.clamp(1, 65535) as u16, board, chip, packet_seq, channel_seq, fault, order }
+            MsgCase { pwb, chunk_size: size.clamp(1, 65535) as u16, board, chip, packet_seq, channel_seq, fault, order, tail_merge }
         })
 }
